@@ -116,4 +116,11 @@ TEXTS = {
         "note": "Panics are observed with catch_unwind plus a hook that records the message; the thorough tier adds the libFuzzer target runtime_total where registered.",
         "technique": "grammar-based fuzzing / property testing with a no-panic oracle",
     },
+    "C20": {
+        "level": "Generated programs compiled by rustc: ~370 accepted receiver declarations per run (16 x ~520 thorough) - the C01/C09/C16 option space with hostile field names plus templates for generics, closures, generic paths, hostile variant names, newtype/unit receivers and nested modules - emitted as one crate that has no dependency named `syn` and imports nothing; `cargo check` must report no error, errors are attributed to receivers by line range.",
+        "ref": "DESIGN.md section 3 C20",
+        "note": "Bounded by compile cost and by the declaration grammar; one listed known finding (container default on an enum with a struct variant) is probed by a fixed template.",
+        "technique": "generated-program compilation (rustc as oracle) over a grammar of accepted declarations",
+        "engine": "vgen + cargo check",
+    },
 }
